@@ -103,7 +103,10 @@ class Gen(object):
         rk = root_kind if root_kind is not None else ("coro", "gen", "agen")[t.weighted([5, 2, 2])]
         kinds.append(rk)
         for i in range(1, n):
-            kinds.append(("coro", "sync", "gen", "agen", "gbcoro")[t.weighted([4, 3, 2, 2, 1])])
+            if self.cfg.__dict__.get("only_sync"):
+                kinds.append("sync")
+            else:
+                kinds.append(("coro", "sync", "gen", "agen", "gbcoro")[t.weighted([4, 3, 2, 2, 1])])
         self.kinds = kinds
         funcs = []
         for i, kind in enumerate(kinds):
@@ -232,6 +235,11 @@ class Gen(object):
             return
         if want_probe:
             d = t.weighted([3, 1, 1])
+            if self.cfg.__dict__.get("park") and t.choose(2) == 0:
+                # thread worlds: park in a C call made directly from this frame
+                self.emit(fn, ind, "W.rel(); W.acq()")
+                self.prog.points[pid] = {"kind": "park", "fname": fn.name}
+                return
             if d == 0:
                 self.emit(fn, ind, "W.probe(F, %d)" % pid)
             else:
